@@ -10,7 +10,7 @@ CLAUSES = {
     "append-values": "appended values are the given ones / the defaults",
     "compactify-survivors": "compactify keeps exactly the living particles, in order, with pid and instance values",
     "compactify-particle-vars": "compactify leaves particle variables (indexed by pid) and npid alone",
-    "setitem-only-target": "item assignment replaces that variable and nothing else",
+    "setitem-only-target": "item assignment replaces that variable and nothing else, and stores a copy (later changes of the caller's array do not reach the state)",
     "error-leaves-state": "a rejected append raises ValueError and leaves the state unchanged",
     "seq-ghost": "after every operation of a sequence the state equals the ghost model",
 }
@@ -141,7 +141,10 @@ def step(W, p):
         return (op, n, tuple(alive_now))
     if op == "setitem":
         newx = [W.real(f"sx{k}") for k in range(n)]
-        S["X"] = W.arr(newx, "f")
+        src = W.arr(newx, "f")
+        S["X"] = src
+        if n:
+            src[0] = W.real("later")  # the caller's array changes afterwards: the state must hold its own copy
         _check_inv(W, S)
         rows = [dict(g["rows"][k], X=newx[k]) for k in range(n)]
         _same_rows(W, S, rows, "setitem-only-target")
